@@ -181,7 +181,7 @@ class NPShim(object):
         if isinstance(a, _np.ndarray) and a.dtype == object:
             if dtype is not None and not _is_float_dtype(dtype):
                 return f(a, dtype=dtype, **kw)
-            return f(a, **kw)
+            return as_sarr(f(a, **kw))
         if isinstance(a, S):
             r = _np.empty((), dtype=object)
             r[()] = a
